@@ -45,7 +45,7 @@ pub struct Fact {
     pub src: Src,
 }
 
-pub const NAMES: [&str; 4] = ["AAA", "BBB", "CCC", "DDD"];
+pub const NAMES: [&str; 5] = ["AAA", "BBB", "CCC", "DDD", "EEE"];
 const QD: [u32; 5] = [9, 10, 15, 20, 31];
 
 pub fn alphabet(ncom: usize) -> Vec<Fact> {
@@ -201,10 +201,10 @@ pub fn refprice_q(ncom: usize, facts: &[GFact], from: usize, to: usize, qd: u32)
 }
 
 fn judge(ncom: usize, facts: &[Fact], text: &str, db: &str, dbpath: &std::path::Path) -> (Outcome, u64, u64) {
-    judge_known(ncom, facts, text, db, dbpath, [true; 4])
+    judge_known(ncom, facts, text, db, dbpath, [true; 5])
 }
 
-fn judge_known(ncom: usize, facts: &[Fact], text: &str, db: &str, dbpath: &std::path::Path, known: [bool; 4]) -> (Outcome, u64, u64) {
+fn judge_known(ncom: usize, facts: &[Fact], text: &str, db: &str, dbpath: &std::path::Path, known: [bool; 5]) -> (Outcome, u64, u64) {
     let dbopt = if db.is_empty() {
         None
     } else {
@@ -355,12 +355,12 @@ fn run(ctx: &mut Ctx) {
             for j in i + 1..dbf.len() {
                 for k in j + 1..dbf.len() {
                     let t = [dbf[i], dbf[j], dbf[k]];
-                    let mut seen = [false; 4];
+                    let mut seen = [false; 5];
                     for f in &t {
                         seen[f.x] = true;
                         seen[f.y] = true;
                     }
-                    if !seen.iter().all(|s| *s) {
+                    if !seen[..4].iter().all(|s| *s) {
                         continue;
                     }
                     for perm in PERMS {
@@ -389,6 +389,19 @@ fn run(ctx: &mut Ctx) {
                     }
                 }
             }
+        }
+    }
+    // five commodities: a diamond AAA-BBB-CCC / AAA-DDD-CCC with a tail CCC-EEE. Every edge comes from the ledger or the
+    // database and is dated d1 or d2 (4^5 = 1024 graphs): the better branch of the diamond must also be the one used for
+    // the commodity BEHIND the diamond (a search that settles a node too early gets CCC right and EEE wrong)
+    {
+        const EDGES: [(usize, usize, u32); 5] = [(0, 1, 2), (1, 2, 3), (0, 3, 5), (3, 2, 7), (2, 4, 11)];
+        for code in 0..1024u32 {
+            let facts: Vec<Fact> = EDGES.iter().enumerate().map(|(i, (x, y, rate))| {
+                let o = (code >> (2 * i)) & 3;
+                Fact { date: if o & 1 == 0 { 10 } else { 20 }, x: *x, y: *y, rate: *rate, src: if o & 2 == 0 { Src::Cost } else { Src::Db } }
+            }).collect();
+            emit(ctx, 5, facts, false);
         }
     }
     // a price of exactly zero is a price: `P d AAA 0 BBB` makes 1 AAA worth 0 BBB from d on (the reverse direction has no
